@@ -20,6 +20,19 @@ REVIEWED_HOM_SITES = {
 }
 
 
+# first line of the reviewed statements (normalised by ast.unparse)
+REVIEWED_HOM_STATEMENTS = {
+    ("whatshap.cli.haplotag.get_variant_information", "gt"): {"if not gt.is_homozygous():"},
+    ("whatshap.vcf.VariantTable.phased_blocks_as_reads", "genotype"): {"if genotype.is_homozygous():"},
+    ("whatshap.vcf.PhasedVcfWriter.write", "gt_type"): {"is_het = not gt_type.is_homozygous()"},
+    ("whatshap.vcf.PhasedVcfWriter.write", "genotypes[pos]"): {"is_het = not genotypes[pos].is_homozygous()"},
+    ("whatshap.cli.haplotagphase.run_haplotagphase", "genotype"): {"homozygous[variant.position] = genotype.is_homozygous()", "homozygous_number += genotype.is_homozygous()"},
+    ("whatshap.polyphase.variantselection.compute_phasable_variants", "gt1"): {"if gt1.is_homozygous():"},
+    ("whatshap.cli.compare.collect_common_variants", "gt"): {"het_variants = [v for v, gt in zip(variant_table.variants, variant_table.genotypes_of(sample)) if not gt.is_homozygous()]"},
+    ("whatshap.cli.compare.run_compare", "gt"): {"het_variants = [v for v, gt in zip(variant_table.variants, variant_table.genotypes_of(sample)) if not gt.is_homozygous()]"},
+}
+
+
 def _short_circuit_atoms(node):
     """Facts that hold whenever ``node`` is evaluated because of short-circuit and/or,
     conditional expressions and comprehension filters that enclose it."""
@@ -78,6 +91,13 @@ def check_none_before_hom(ctx, fi):
             reason = "dominated by `not %s.is_none()`" % recv
         else:
             reason = REVIEWED_HOM_SITES.get((fi.qual, recv))
+            if reason is not None:
+                # a reviewed instance is one statement, not every use of that receiver in the function
+                stmt = util.stmt_of(n)
+                head = u(stmt).split("\n")[0] if stmt is not None else ""
+                allowed = REVIEWED_HOM_STATEMENTS.get((fi.qual, recv))
+                if allowed is not None and head not in allowed:
+                    reason = None
         ok = reason is not None
         ctx.ob(
             fi.qual,
